@@ -32,7 +32,8 @@ ASSUMPTIONS = ['oracle: union-find over all pairs with atan2 separations (aegmon
                'is judged only through AeReg --eps and priorized_fit_islands(regroup_eps=)',
                'elliptical variant: only partition, chain-connectedness under norm_dist < eps (own implementation, '
                'relative band 1e-6) and row-order independence for distinct declinations are judged',
-               'resize: ratio=1 must return every source unchanged (a, b to 1e-12 relative); ratio>1 must not shrink a '
+               'resize: ratio=1, with or without a psf helper (WCSHelper.from_header, as load_globals builds it), must '
+               'return every source unchanged (a, b to 1e-12 relative, everything else exactly); ratio>1 must not shrink a '
                'source whose psf is known; sources without psf and ratio != 1 are documented as dropped and not judged']
 MIN_REACH = {'cluster:regroup_dbscan': 1, 'cluster:regroup': 1, 'cluster:regroup_vectorized': 1, 'cluster:resize': 1,
              'cluster:norm_dist': 1, 'CLI.AeReg:main': 1, 'source_finder:SourceFinder.priorized_fit_islands': 1}
@@ -41,7 +42,9 @@ MIN_COUNTERS = {'dbscan_catalogues': 40, 'dbscan_runs': 400, 'dbscan_links_check
                 'threshold_pairs_judged_priorized': 100, 'chain_catalogues': 3, 'pole_catalogues': 2,
                 'wrap_catalogues': 2, 'duplicate_catalogues': 2, 'elliptical_catalogues': 10,
                 'elliptical_groups_checked': 20, 'resize_ratio1_sources': 100, 'resize_ratio1_nopsf_sources': 20,
-                'resize_larger_ratio_sources': 100, 'aereg_runs': 8, 'priorized_runs': 8}
+                'resize_larger_ratio_sources': 100, 'resize_ratio1_with_helper_sources': 50,
+                'resize_ratio1_with_helper_psf_differs_sources': 20, 'resize_larger_ratio_with_helper_sources': 30,
+                'aereg_runs': 8, 'priorized_runs': 8}
 BATCHES_PER_JOB = 4
 
 REL_BAND = 1e-9
@@ -515,38 +518,77 @@ def _run_elliptical(o, case):
         o.n_nontrivial += 1
 
 
+IMAGE_BEAM = (0.02, 0.015, 20.0)      # degrees: 72" x 54"
+
+
+def _psf_helper():
+    """the object priorized_fit_islands hands to resize: SourceFinder.load_globals builds
+    global_data.psfhelper = WCSHelper.from_header(header, beam, psf_file)"""
+    from aegmon.refs import wcs_zenithal as wz
+    from AegeanTools.wcs_helpers import WCSHelper
+    h = wz.make_header(crval=(120.0, -35.0), crpix=(64, 64), cdelt=(-0.005, 0.005), shape=(128, 128), beam=IMAGE_BEAM)
+    return WCSHelper.from_header(h)
+
+
 def _run_resize(o, case):
     from AegeanTools import cluster
     rng = rng_for(*case['seed'])
     n = case['n']
     ra, dec = _sphere_points(rng, n)
     flux = np.exp(rng.normal(0, 1, n))
-    psf = case['psf']
+    psf = case['psf']          # known | nan | larger | smaller | equal | mixed_first_known | mixed_first_nan
     ratio = case['ratio']
-    srcs = _sources(ra, dec, flux, rng, psf=psf)
-    if psf == 'known':
-        for s in srcs:
-            s.psf_a, s.psf_b = float(rng.uniform(10, 100)), float(rng.uniform(5, 10))
+    use_helper = bool(case.get('helper'))
+    if use_helper:
+        # inside the image the helper belongs to (as the catalogue of a priorized fit would be)
+        ra, dec = sphere.destination(120.0, -35.0, rng.uniform(0, 0.25, n), rng.uniform(0, 360, n))
+    srcs = _sources(ra, dec, flux, rng, psf='nan')
+    ima, imb, impa = IMAGE_BEAM[0] * 3600, IMAGE_BEAM[1] * 3600, IMAGE_BEAM[2]
+    known = np.ones(n, dtype=bool)
+    if psf == 'nan':
+        known[:] = False
+    elif psf.startswith('mixed'):
+        known = rng.random(n) < 0.5
+        known[0] = psf == 'mixed_first_known'
+    for k, s in enumerate(srcs):
+        if not known[k]:
+            continue
+        if psf == 'known':
+            s.psf_a, s.psf_b, s.psf_pa = float(rng.uniform(10, 100)), float(rng.uniform(5, 10)), 10.0
+        elif psf == 'equal':
+            s.psf_a, s.psf_b, s.psf_pa = ima, imb, impa
+        else:
+            f = {'larger': rng.uniform(1.2, 3.0), 'smaller': rng.uniform(0.2, 0.8)}.get(psf, rng.choice([0.5, 2.0]))
+            s.psf_a, s.psf_b, s.psf_pa = float(ima * f), float(imb * f), float(rng.uniform(-90, 90))
     snap = _snapshot(srcs)
-    ctx = {'entry': 'resize', 'ratio': ratio, 'psf': psf, 'n': n}
+    ctx = {'entry': 'resize', 'ratio': ratio, 'psf': psf, 'n': n, 'psfhelper': use_helper,
+           'image_beam_arcsec': [ima, imb] if use_helper else None}
+    mech = 'resize-unknown-psf' if not known.all() else None
     try:
         with warnings.catch_warnings():
             warnings.simplefilter('ignore')
-            out = cluster.resize(srcs, ratio=ratio)
+            if use_helper:
+                out = cluster.resize(srcs, ratio=ratio, psfhelper=_psf_helper())
+            else:
+                out = cluster.resize(srcs, ratio=ratio)
     except Exception:
-        o.violate('raises', dict(ctx, traceback=traceback.format_exc()[-600:]))
+        o.violate('raises', dict(ctx, traceback=traceback.format_exc()[-600:]), mech)
         return
     o.n_eval += 1
     o.n_nontrivial += 1
-    judged_all = (ratio == 1) or psf == 'known'
-    if judged_all:
-        if len(out) != n or any(x is not y for x, y in zip(out, srcs)):
-            o.violate('resize_ratio1_drops_sources' if ratio == 1 else 'resize_drops_sources',
-                      dict(ctx, returned=len(out), a_after=repr(srcs[0].a), psf_a=repr(srcs[0].psf_a)),
-                      'resize-unknown-psf' if psf == 'nan' else None)
-    _check_unchanged(o, srcs, snap, ('a', 'b'), ctx)
-    for s, before in zip(srcs, snap):
-        if not judged_all and not any(s is x for x in out):
+    # which sources must come back: all of them for ratio 1; for larger ratios those whose psf is known
+    must = np.ones(n, dtype=bool) if ratio == 1 else known
+    outids = [id(x) for x in out]
+    missing = [k for k in range(n) if must[k] and id(srcs[k]) not in outids]
+    order_ok = outids == [id(s) for s in srcs if id(s) in set(outids)] and len(set(outids)) == len(outids)
+    if missing or not order_ok or any(i not in set(id(s) for s in srcs) for i in outids):
+        o.violate('resize_ratio1_drops_sources' if ratio == 1 else 'resize_drops_sources',
+                  dict(ctx, returned=len(out), missing=missing[:5], order_kept=order_ok,
+                       a_after=repr(srcs[missing[0] if missing else 0].a), psf_a=repr(srcs[missing[0] if missing else 0].psf_a)),
+                  mech)
+    _check_unchanged(o, srcs, snap, ('a', 'b'), ctx)        # pa, psf_*, labels, ... of every source
+    for k, (s, before) in enumerate(zip(srcs, snap)):
+        if not must[k]:
             continue
         for key in ('a', 'b'):
             new, old = getattr(s, key), before[key]
@@ -554,19 +596,30 @@ def _run_resize(o, case):
                 err = abs(new - old) / old if np.isfinite(new) else np.inf
                 o.worst('resize_ratio1_rel_change', err if np.isfinite(err) else None)
                 if not err <= 1e-12:
-                    o.violate('resize_ratio1_not_identity', dict(ctx, attribute=key, before=old, after=repr(new)),
-                              'resize-unknown-psf' if psf == 'nan' else None)
+                    o.violate('resize_ratio1_not_identity',
+                              dict(ctx, source=k, attribute=key, before=old, after=repr(new),
+                                   psf_of_source=[repr(s.psf_a), repr(s.psf_b)]),
+                              'resize-unknown-psf' if not known[k] else None)
                     return
             elif not (new >= old * (1 - 1e-12)):
-                o.violate('larger_ratio_shrinks', dict(ctx, attribute=key, before=old, after=repr(new)))
+                o.violate('larger_ratio_shrinks', dict(ctx, source=k, attribute=key, before=old, after=repr(new),
+                                                       psf_of_source=[repr(s.psf_a), repr(s.psf_b)]))
                 return
+    tag = '_with_helper' if use_helper else ''
     if ratio == 1:
         o.count('resize_ratio1_sources', n)
-        if psf == 'nan':
-            o.count('resize_ratio1_nopsf_sources', n)
+        o.count('resize_ratio1_nopsf_sources', int((~known).sum()))
+        if use_helper:
+            o.count('resize_ratio1_with_helper_sources', n)
+            if psf in ('larger', 'smaller') or psf.startswith('mixed'):
+                o.count('resize_ratio1_with_helper_psf_differs_sources', int(known.sum()))
     else:
-        o.count('resize_larger_ratio_sources', n)
-    o.sample = {'n': n, 'ratio': ratio, 'psf': psf, 'returned': len(out), 'a_before_after': [snap[0]['a'], repr(srcs[0].a)]}
+        o.count('resize_larger_ratio_sources', int(known.sum()))
+        if use_helper:
+            o.count('resize_larger_ratio_with_helper_sources', int(known.sum()))
+    o.see('resize_configurations', '%s ratio%s1%s' % (psf, '=' if ratio == 1 else '>', tag))
+    o.sample = {'n': n, 'ratio': ratio, 'psf': psf, 'psfhelper': use_helper, 'returned': len(out),
+                'a_before_after': [snap[0]['a'], repr(srcs[0].a)]}
 
 
 def _write_csv(path, srcs, drop_psf=False, delimiter=','):
@@ -781,6 +834,14 @@ def cases(seed, tier):
         for n in (1, 5, 40):
             out.append({'kind': 'resize', 'n': n, 'psf': psf, 'ratio': 1, 'seed': [0, 'resize', psf, n]})
             out.append({'kind': 'resize', 'n': n, 'psf': psf, 'ratio': 1.0, 'seed': [0, 'resize1.0', psf, n]})
+    # the way priorized_fit_islands calls it: ratio together with the image's psf helper; catalogue psf columns
+    # larger than / smaller than / equal to the image beam, absent, or present for some sources only
+    for psf in ('larger', 'smaller', 'equal', 'nan', 'mixed_first_known', 'mixed_first_nan', 'known'):
+        for n in (1, 12):
+            for ratio in (1, 1.0, 2.5):
+                out.append({'kind': 'resize', 'n': n, 'psf': psf, 'ratio': ratio, 'helper': True,
+                            'seed': [0, 'resize-helper', psf, n, repr(ratio)]})
+        out.append({'kind': 'resize', 'n': 12, 'psf': psf, 'ratio': 1.5, 'seed': [0, 'resize-nohelper', psf]})
     # ---- seeded random sample
     reps = 10 if quick else 1500
     for k in range(reps):
@@ -804,6 +865,9 @@ def cases(seed, tier):
                     'seed': [seed, 'resize-r', k]})
         out.append({'kind': 'resize', 'n': int(rng.integers(1, 200)), 'psf': ('known', 'nan')[k % 2], 'ratio': 1,
                     'seed': [seed, 'resize-1', k]})
+        modes = ['larger', 'smaller', 'equal', 'nan', 'mixed_first_known', 'mixed_first_nan', 'known']
+        out.append({'kind': 'resize', 'n': int(rng.integers(1, 100)), 'psf': modes[k % 7], 'helper': True,
+                    'ratio': 1 if k % 3 else float(rng.uniform(1, 10)), 'seed': [seed, 'resize-h', k]})
         e = float(10 ** rng.uniform(-1, np.log10(120)))
         offs = [float(10 ** rng.uniform(-7, -3)) for _ in range(8)]
         out.append({'kind': 'aereg', 'eps_arcmin': e, 'offsets': offs, 'seed': [seed, 'aereg-r', k]})
